@@ -91,6 +91,8 @@ Write(blk, sel, aop, src, cx) ==
 (*   [k |-> "ex", buf, shape, r, m, c]    the expression  m * slice + c                            *)
 (*   [k |-> "ex2", buf, shape, r, vals]   the expression  slice + tensor                           *)
 (*   [k |-> "rv", buf, sel]               an index-tensor view (flat offsets sel) of a buffer       *)
+(*   [k |-> "tx", vals, m, c]             the lazy expression  m * tensor + c                        *)
+(*   [k |-> "mm", a, b, rows, cols]       the matrix product (rows x 2) % (2 x cols), needs evaluation *)
 (*   [k |-> "mp", buf, shape, via]        a TensorMap / reshape / flatten handle of a whole buffer    *)
 (* evaluated on memory `mem` (a function from buffer names to blocks), n = number of elements.     *)
 EvalRhs(mem, rhs, n, cx) == TLCEval(
@@ -100,6 +102,11 @@ EvalRhs(mem, rhs, n, cx) == TLCEval(
       [] rhs.k = "ex" -> LET x == Read(mem[rhs.buf], Sel(rhs.shape, rhs.r))
                          IN [q \in 1..n |-> Add(Mul(rhs.m, x[q], cx), rhs.c, cx)]
       [] rhs.k = "rv" -> Read(mem[rhs.buf], rhs.sel)                                  \* index view of a buffer
+      \* a lazy element-wise expression  m * T + c  of a tensor T given by its values
+      [] rhs.k = "tx" -> [q \in 1..n |-> Add(Mul(rhs.m, rhs.vals[q], cx), rhs.c, cx)]
+      \* an expression that has to be evaluated into a temporary first: the matrix product  P % Q  (P: rows x 2, Q: 2 x cols, or 2 for a vector)
+      [] rhs.k = "mm" -> [q \in 1..n |-> LET i == (q - 1) \div rhs.cols  j == (q - 1) % rhs.cols
+                                         IN Add(Mul(rhs.a[2 * i + 1], rhs.b[j + 1], cx), Mul(rhs.a[2 * i + 2], rhs.b[rhs.cols + j + 1], cx), cx)]
       [] rhs.k = "mp" -> Read(mem[rhs.buf], [q \in 1..n |-> q - 1])                   \* a map of the whole buffer (row-major cells in order)
       [] rhs.k = "ex2" -> LET x == Read(mem[rhs.buf], Sel(rhs.shape, rhs.r))
                           IN [q \in 1..n |-> Add(x[q], rhs.vals[q], cx)])
